@@ -815,7 +815,8 @@ def r01_3(ctx):
 
         for p in px.explore(f, setup):
             ctx.paths += 1
-            calls = [e.what.split(".")[-1] for e in p.events if e.kind == "call" and e.what.startswith("self.")]
+            # (by the method that is reached, however the call is spelled: `self.x(frame)`, `getattr(self, name)(frame)`, a table of bound methods)
+            calls = [str(e.callee or e.what).split(".")[-1] for e in p.events if e.kind == "call" and str(e.callee or e.what).startswith("self.")]
             want = (["_handle_ack"] if cname in ("DataFrame", "AckFrame", "NakFrame") else []) + [handlers.get(cname, "?")]
             ctx.require(p.terminal == "return" and calls == want, f"dispatch:{cname}",
                         f"{cname}: frame_received calls {calls}, must call {want}", func=f, trace=p.trace())
